@@ -119,7 +119,7 @@ pub fn docs_census(b: &HnswBackend) -> String {
 }
 
 impl World {
-    fn recover_at(&mut self, shadow: &BTreeMap<String, Vec<u8>>) -> String {
+    pub fn recover_at(&mut self, shadow: &BTreeMap<String, Vec<u8>>) -> String {
         self.scratch_n += 1;
         let d = self.root.join("crash");
         materialise(shadow, &d);
@@ -147,6 +147,33 @@ impl World {
         self.next_name += 1;
         self.names.insert(real.to_string(), n);
         n
+    }
+
+    pub fn canon_name(&self, real: &str) -> String {
+        match self.names.get(real) {
+            Some(n) => n.to_string(),
+            None => "?".to_string(),
+        }
+    }
+
+    /// manifest fields with unknown file names collapsed to `?`
+    pub fn show_manifest_view(&self, data: &[u8]) -> String {
+        match serde_json::from_slice::<Manifest>(data) {
+            Ok(m) => {
+                let segs: Vec<String> = m.wal_segments.iter().map(|s| self.canon_name(s)).collect();
+                if m.latest_snapshot.as_ref().map(|s| s.contains('/')).unwrap_or(false) {
+                    // the pointer leaves the data directory: fallback scans another directory
+                    return "outside".into();
+                }
+                format!(
+                    "{}/{}/{}",
+                    m.latest_snapshot.as_ref().map(|s| self.canon_name(s)).unwrap_or_else(|| "-".into()),
+                    m.latest_snapshot_wal_seq.map(|s| s.to_string()).unwrap_or_else(|| "-".into()),
+                    if segs.is_empty() { "-".to_string() } else { segs.join(",") }
+                )
+            }
+            Err(_) => "unparsable".into(),
+        }
     }
 
     fn canon_opt(&self, real: &str) -> String {
@@ -456,7 +483,7 @@ pub fn step(w: &mut Option<World>, line: &str, scratch_root: &Path, case_no: &mu
         return (t, "bad-op:no-cfg".into());
     };
     let bad = || (line.trim().to_string(), "bad-op".to_string());
-    if w.b.is_none() && op != "restart" && op != "disk" {
+    if w.b.is_none() && op != "restart" && op != "disk" && op != "sweep" {
         return (t, "down".into());
     }
     match op.as_str() {
@@ -581,6 +608,49 @@ pub fn step(w: &mut Option<World>, line: &str, scratch_root: &Path, case_no: &mu
                     (t, err_class(&format!("{:#}", e)).to_string())
                 }
             }
+        }
+        "sweep" => {
+            // clean stop, then every single fault on the directory
+            w.b = None;
+            let _ = w.consume(false);
+            let base = w.shadow.clone();
+            let pre = w.recover_at(&base);
+            let full = field(&fs, "level") == Some("full");
+            let seed = nat(&fs, "seed").unwrap_or(0);
+            let only = field(&fs, "only").map(|s| s.to_string());
+            let faults = crate::damage::enumerate(&base, full, seed);
+            let tmp = w.root.join("view");
+            std::fs::create_dir_all(&tmp).expect("mkdir view");
+            let mut anns = vec![];
+            let mut outs = vec![];
+            for f in &faults {
+                let c = crate::damage::concrete(w, f);
+                if let Some(o) = &only {
+                    if *o != c {
+                        continue;
+                    }
+                }
+                if crate::damage::huge_alloc(&base, f) {
+                    anns.push(format!("{}@{}@skip", f.label, c));
+                    outs.push("skipped".to_string());
+                    continue;
+                }
+                let v = crate::damage::view(w, &base, f, &tmp);
+                let sh = crate::damage::apply(&base, f);
+                let o = w.recover_at(&sh);
+                anns.push(format!("{}@{}@{}", f.label, c, v));
+                outs.push(o);
+            }
+            (
+                format!(
+                    "sweep level={} seed={} base={} faults={}",
+                    if full { "full" } else { "quick" },
+                    seed,
+                    pre,
+                    if anns.is_empty() { "-".to_string() } else { anns.join("#") }
+                ),
+                outs.join("#"),
+            )
         }
         "census" => (t, docs_census(w.b.as_ref().unwrap())),
         "disk" => (t, show_disk(w)),
